@@ -1,1 +1,32 @@
-//! verif hook (child module): see /verif/hooks/verif.rs
+//! verif hook (child module of `futures_ordered`)
+use super::*;
+
+impl<T: Future> FuturesOrdered<T> {
+    pub(crate) fn verif_from_parts(
+        inner: FuturesUnordered<OrderWrapper<T>>,
+        next_in: usize,
+        next_out: usize,
+    ) -> Self {
+        Self {
+            in_progress_queue: inner,
+            queued_outputs: BinaryHeap::new(),
+            next_incoming_index: Wrapping(next_in),
+            next_outgoing_index: Wrapping(next_out),
+        }
+    }
+    pub fn verif_park(&mut self, index: usize, out: T::Output) {
+        self.queued_outputs.push(OrderWrapper { data: out, index });
+    }
+    pub fn verif_counters(&self) -> (usize, usize) {
+        (self.next_incoming_index.0, self.next_outgoing_index.0)
+    }
+    pub fn verif_heap_len(&self) -> usize {
+        self.queued_outputs.len()
+    }
+    pub fn verif_heap_at(&self, k: usize) -> Option<(usize, &T::Output)> {
+        self.queued_outputs.as_slice().get(k).map(|w| (w.index, &w.data))
+    }
+    pub(crate) fn verif_inner(&mut self) -> &mut FuturesUnordered<OrderWrapper<T>> {
+        &mut self.in_progress_queue
+    }
+}
